@@ -64,14 +64,19 @@ ME (op) (const char *op, int d, int a, int b, const int *v, int nv)
     if (!strcmp (op, "init_rects"))
     {
 	int n = nv / 4, i, ret;
-	BOX_T *bs = malloc (sizeof (BOX_T) * (n ? n : 1));
+	BOX_T *bs;
+	vf_pause (1);
+	bs = malloc (sizeof (BOX_T) * (n ? n : 1));
+	vf_pause (0);
 	for (i = 0; i < n; i++)
 	{
 	    bs[i].x1 = v[4 * i]; bs[i].y1 = v[4 * i + 1]; bs[i].x2 = v[4 * i + 2]; bs[i].y2 = v[4 * i + 3];
 	}
 	FN (_fini) (D);
 	ret = FN (_init_rects) (D, bs, n);
+	vf_pause (1);
 	free (bs);
+	vf_pause (0);
 	return ret;
     }
     if (!strcmp (op, "from_image"))
@@ -79,8 +84,10 @@ ME (op) (const char *op, int d, int a, int b, const int *v, int nv)
 	/* v = width height then height*width bits; the image has a padded stride and garbage in the padding */
 	int w = v[0], h = v[1], x, y;
 	int stride_words = (w + 31) / 32 + 1;
-	uint32_t *bits = malloc (4 * stride_words * h);
+	uint32_t *bits;
 	pixman_image_t *img;
+	vf_pause (1);
+	bits = malloc (4 * stride_words * h);
 	memset (bits, 0xff, 4 * stride_words * h);      /* padding bits set: must be ignored */
 	for (y = 0; y < h; y++)
 	    for (x = 0; x < w; x++)
@@ -90,10 +97,13 @@ ME (op) (const char *op, int d, int a, int b, const int *v, int nv)
 		if (v[2 + y * w + x]) *word |= m; else *word &= ~m;
 	    }
 	img = pixman_image_create_bits (PIXMAN_a1, w, h, bits, stride_words * 4);
+	vf_pause (0);
 	FN (_fini) (D);
 	FN (_init_from_image) (D, img);
+	vf_pause (1);
 	pixman_image_unref (img);
 	free (bits);
+	vf_pause (0);
 	return 1;
     }
     fprintf (stderr, "unknown op %s\n", op);
